@@ -141,7 +141,12 @@ func init() {
 		Rule: "all event sequences of the bound over {Ins(p) for a 14-point alphabet (boundary/±1ns/mid-period timestamps, int/float/string/array/missing values, typed and missing dims, clock-moving point), Flush(t1), FlushAll} × schemas {t1} and {t1,t2,v1 view}; executed on the real DB with exact quiescence after each event; " +
 			"oracle = reference model recomputing every aggregate from raw points, checked after every event on every distinct storage state (VerifDump key) and after a final FlushAll with and without memstore; non-trivial = sequence with >=2 inserts landing in one (key, period)",
 		Assumptions: []string{"virtual clock starts at the harness epoch", "float comparisons use 1e-9 relative tolerance", "rows outside the default query window may be present or absent in a native scan"},
-		Shards:      func(tier string) int { return 16 },
+		Shards: func(tier string) int {
+			if tier == "thorough" {
+				return 64 // short-lived workers: every closed zenodb instance leaves goroutines and buffers behind
+			}
+			return 16
+		},
 		Budget: func(tier string) time.Duration {
 			if tier == "thorough" {
 				return 40 * time.Minute
